@@ -17,6 +17,13 @@ VARIABLE i
 FileSet(tr) == {tr.files[j] : j \in 1..Len(tr.files)}
 HeapSet(tr) == {tr.heapfiles[j] : j \in 1..Len(tr.heapfiles)}
 
+\* sequential runs also record the accounting fields after every call (each call is quiescent)
+SnapsOk(tr, F) ==
+  \A j \in 1..Len(tr.snaps) :
+     LET sn == tr.snaps[j] IN
+     Abs!AccountingOk(sn.mem, sn.maxmem, [f \in F |-> sn.bytes[f]],
+                      {sn.heapfiles[q] : q \in 1..Len(sn.heapfiles)}, F)
+
 Judge(tr) ==
   LET F == FileSet(tr)
       initd == [f \in F |-> tr.initdisk[f]]
@@ -28,6 +35,7 @@ Judge(tr) ==
         [] ~Abs!NoInternalErrorH(tr.hist) -> "InternalError"
         [] tr.minmem < 0 -> "MemNegative"
         [] ~Abs!AccountingOk(tr.mem, tr.maxmem, byt, HeapSet(tr), F) -> "Accounting"
+        [] "snaps" \in DOMAIN tr /\ ~SnapsOk(tr, F) -> "AccountingAfterCall"
         [] ~Abs!LinearizableH(tr.hist, initd, disk, cach, F) -> "NotLinearizable"
         [] OTHER -> "ok"
 
